@@ -31,7 +31,31 @@ section
 variable {F : Type} [Carrier F] [Add F] [Sub F] [Mul F] [Div F] [Neg F] [NatCast F]
   [LT F] [LE F] [DecidableLT F] [DecidableLE F] [Transc F]
 
+/-- `spec=` of a bound as the caller spelled it: `float:<x>`, `seq:<x>;<x>;…` (`s` = a string entry), `str`, `int`,
+    `other` (the constructors of `Bounds.BoundSpec`) -/
+def parseSpecG (s : String) : Option (Bounds.BoundSpec F) :=
+  if s == "str" then some .str
+  else if s == "int" then some .int
+  else if s == "other" then some .other
+  else if s.startsWith "float:" then (Carrier.parse (F := F) (s.drop 6).toString).map .float
+  else if s.startsWith "seq:" then
+    let body := (s.drop 4).toString
+    let items := if body == "" then [] else body.splitOn ";"
+    (items.mapM fun t => if t == "s" then some none else (Carrier.parse (F := F) t).map some).map .seq
+  else none
+
+/-- the interval applied: `lo=`/`hi=` given directly, or `spec=` + `falsy=` (the bound object as the caller spelled it
+    and its Python truth value) read by the model's own `Bounds.estimatorBound` / `parseBound` (entries 0 and 1 of a
+    collection; a falsy object = no truncation); neither = no bound.  A rejected specification is `.error` inside. -/
 def parseBoundArg (a : Args) : Except String (Option (F × F)) :=
+  match a.get? "spec" with
+  | some _ => do
+    let spec ← need a "spec" (parseSpecG (F := F))
+    let falsy ← need a "falsy" parseBool
+    match Bounds.estimatorBound falsy spec with
+    | .ok iv => pure iv
+    | .error e => throw ("model-rejects-bound:" ++ showErr e)
+  | none =>
   match a.get? "lo", a.get? "hi" with
   | some _, some _ => do
     let lo ← need a "lo" (Carrier.parse (F := F))
